@@ -10,8 +10,10 @@ destruction, flushes in any order — `Reachable`; those that need the documente
 returned by a collector call is flushed before the next call / before the state dies) quantify over all
 operation lists satisfying `Flushed` — `FlushedReachable`.
 
-Operation lists include `emitter::operator=` (`assign`: what a busy listener's emitter denotes — the shared state or nothing)
-and `connect` through a signal object without state (`connect0`); `c15_assign_only_retargets`, `c15_assign_then_await`,
+Operation lists include `emitter::operator=` (`assign`: what a busy listener's emitter denotes — the shared state or nothing),
+`connect` through a signal object without state (`connect0`) and `connect` of an *lvalue* callable which the caller destroys
+right afterwards (`connectL`: the connection owns a copy, `c15_connect_owns_callback`; the pinned code kept a reference,
+`c15_asis_connect_lvalue_dangling`, `/repo` commit d8a7c3e); `c15_assign_only_retargets`, `c15_assign_then_await`,
 `c15_callbacks_unconnected` say what these do, every other theorem quantifies over them.
 
 Also here: `c15_hookup_receives_registration_value` (`hook_up` subscribes before the registration function runs),
@@ -143,6 +145,25 @@ theorem c15_callbacks {s : State} (h : Reachable s) (c : Nat) (hc : c < s.next) 
     rcases hfull with e | e
     · exact absurd e hh.1
     · omega
+
+/-- **The connection owns its callback.**  `connect(fn)` with an lvalue callable that the caller destroys (or modifies, or
+reuses) as soon as `connect` has returned is the same step as `connect` of a temporary: the awaiter stores `std::decay_t<Fn>`,
+a copy.  The new callback is waiting in the chain, has observed nothing — in particular it has *not* been released by the
+caller's destruction of its own object — and `c15_callbacks` (which quantifies over every operation list, `connectL` included)
+says what it observes from here on: the next `n + 1` values, once each, then its release, exactly once, as its last event.
+(The pinned code stored a reference: `c15_asis_connect_lvalue_dangling`.) -/
+theorem c15_connect_owns_callback (s : State) (n : Nat) :
+    step s (Op.connectL n) = step s (Op.connect n)
+    ∧ (s.handles ≠ 0 →
+        (step s (Op.connectL n)).2 = Res.id s.next
+        ∧ s.next ∈ (step s (Op.connectL n)).1.chain
+        ∧ (step s (Op.connectL n)).1.got s.next = []
+        ∧ (step s (Op.connectL n)).1.isCb s.next = true
+        ∧ (step s (Op.connectL n)).1.conn s.next = true
+        ∧ (step s (Op.connectL n)).1.budget s.next = n
+        ∧ (step s (Op.connectL n)).1.subAt s.next = s.emitted.length) := by
+  refine ⟨rfl, fun h0 => ?_⟩
+  simp [step, stepConnect, h0, fresh]
 
 /-- …and a callback connected through a `signal` object that has no state (moved-from): `initial_reg` cannot lock the
 weak pointer, the awaiter deletes itself at once — released exactly once, never called, never in the chain (every history). -/
@@ -325,6 +346,19 @@ thread releases the chain and the one-shot listener's awaiter dies, then the sub
 theorem c15_asis_subscribe_uaf :
     (Pub.run [Pub.Op.cas 0, Pub.Op.release, Pub.Op.post 0]).uaf = true := by decide
 
+/-- The pinned `signal::connect` (before `/repo` commit d8a7c3e "fix: signal::connect kept a reference to an lvalue callback
+instead of owning it"; replayed on the headers in corpus/c15_connect_lvalue.txt): a callable with budget 2 is connected as an
+lvalue and destroyed by its owner right after `connect` returned — the callback has been released (`free`) while its awaiter is
+still waiting in the chain, and the next value is "delivered" by calling the destroyed callable (`free` is not its last event:
+`c15_callbacks` fails).  The repaired code delivers 7 to the owned copy and releases it once, at disconnection. -/
+theorem c15_asis_connect_lvalue_dangling :
+    (runAsIs init [Op.connectL 2]).got 0 = [Out.free]
+    ∧ 0 ∈ (runAsIs init [Op.connectL 2]).chain
+    ∧ (runAsIs init [Op.connectL 2, Op.emit false 7]).got 0 = [Out.free, Out.val 7]
+    ∧ 0 ∈ (runAsIs init [Op.connectL 2, Op.emit false 7]).chain
+    ∧ (run init [Op.connectL 2, Op.emit false 7]).got 0 = [Out.val 7]
+    ∧ (run init [Op.connectL 2, Op.emit false 7, Op.dropHandle]).got 0 = [Out.val 7, Out.free] := by decide
+
 /-! ### non-vacuity: flushed histories with re-awaiting, gating and leaving listeners, callbacks, by-value and
 by-reference calls, a held-then-flushed suspend point, and disconnection -/
 
@@ -365,5 +399,12 @@ example : (run init demoAssign).got 0 = [Out.val 1, Out.canceled]
     ∧ (run init demoAssign).got 3 = [Out.free]
     ∧ (run init demoAssign).conn 0 = false ∧ (run init demoAssign).conn 2 = true
     ∧ (run init demoAssign).chain = [1] ∧ (run init demoAssign).gated = [2] := by decide
+
+/-- a reachable (flushed) history with a callback connected as an lvalue (`connectL`, budget 1): it gets the two values emitted
+while it is connected, answers false to the second and is released exactly once -/
+example : FlushedReachable (run init [Op.listen [], Op.connectL 1, Op.emit false 4, Op.resume 0, Op.emit true 5, Op.resume 0,
+      Op.emit false 6, Op.resume 0]) := ⟨_, by decide, rfl⟩
+example : (run init [Op.listen [], Op.connectL 1, Op.emit false 4, Op.resume 0, Op.emit true 5, Op.resume 0,
+      Op.emit false 6, Op.resume 0]).got 1 = [Out.val 4, Out.val 5, Out.free] := by decide
 
 end Cocls.Signal
